@@ -440,18 +440,23 @@ def run_r2(ctx, rule, tn, only=None):
 ALLOC = ("alloc::vec::Vec::reserve", "alloc::vec::Vec::with_capacity", "alloc::vec::Vec::resize", "alloc::vec::Vec::reserve_exact", "alloc::string::String::with_capacity", "alloc::string::String::reserve", "alloc::vec::from_elem", "alloc::vec::Vec::resize_with")
 
 
-def run_r5(ctx, rule, tn):
+def run_r5(ctx, rule, tn, scope=None):
     facts = ctx.facts
     n = 0
     for fid, f in sorted(facts.fns.items()):
-        if not in_scope(f):
+        if not (scope(f) if scope is not None else in_scope(f)):
             continue
         sy = sym(f)
         ordn = {}
         for bb, t in f.calls():
             cn = util.cname(t)
             size = None
-            if cn in ALLOC:
+            last = cn.rsplit("::", 1)[-1]
+            if cn not in ALLOC and last in ("with_capacity", "with_capacity_and_hasher", "with_capacity_in", "reserve", "reserve_exact", "try_reserve", "try_reserve_exact") and cn.startswith(("std::collections::", "hashbrown::", "alloc::collections::", "alloc::vec::", "alloc::string::", "alloc::raw_vec::", "std::ffi::", "indexmap::")):
+                # every collection that can be pre-sized (hash maps and sets, deques, heaps, ..), not only Vec / String
+                args_ = [sy.operand(a) for a in t["args"]]
+                size = args_[0] if last.startswith("with_capacity") else (args_[1] if len(args_) > 1 else None)
+            elif cn in ALLOC:
                 size = [sy.operand(a) for a in t["args"]]
                 size = size[1] if cn.endswith(("reserve", "resize", "reserve_exact", "resize_with")) and len(size) > 1 else size[-1] if cn.endswith("from_elem") else size[0]
             elif cn.endswith("Iterator::collect") or cn.endswith("FromIterator>::from_iter"):
@@ -466,8 +471,10 @@ def run_r5(ctx, rule, tn):
             ordn[cn] = o + 1
             rule.check(not tn.tainted(f, size), "%s/%s/#%d" % (norm(fid), short(cn), o), "%s in %s is not sized by a number the input declares (size %s)" % (short(cn), short(fid), sy.show(size)[:60]), f.loc(bb))
     rule.note("allocation_sites", n)
-    if n == 0:
+    if n == 0 and scope is None:
         rule.bad("alloc/control", "positive control failed: no allocation site found at all (request_more's resize expected)", kind="anchor-missing")
+    if scope is not None:
+        rule.ok("%d allocation or reservation sites in this scope" % n)
 
 
 # ---- R6 ---------------------------------------------------------------------------------------
